@@ -39,8 +39,10 @@ def make_form(rng, i, klass):
                                                  p_required=0.4, p_required_msg=0.8))
     if klass == "settings":
         f = gen.gen_form(rng, common.rich_cfg(rng, p_bind_extra=0, p_instance_extra=0, delim="::"))
-        f.settings["namespaces"] = NS_SETTINGS
+        f.settings["namespaces"] = NS_SETTINGS + rng.choice(["", "", ' geoentities="http://example.org/geoentities"', ' sub_entities="http://example.org/sub"',
+                                                              ' xentities="http://example.org/x" zz="http://example.org/zz"'])
         opts = {
+            "attribute::id": "legacy-0042", "attribute::version": "9.9.9", "attribute::odk:prefix": "zz",
             "attribute::esri:tag": hostile.hostile(rng, "attrval"),
             "attribute::plain": "pv",
             "instance_xmlns": "http://example.org/ns/" + str(i),
@@ -136,7 +138,12 @@ def check_output(ctx, o, klass, form, fmt, pretty, sig):
         if not o.exc_is_pyxform:
             ctx.ctr("internal_exception_seen(C17's business)")
         return False
+    # the primary instance root carries the form id: form_id (else id_string) setting, else the fallback name
     expect_id = None
+    if form is not None and klass != "names":
+        sid = form.settings.get("form_id") or form.settings.get("id_string")
+        expect_id = " ".join(str(sid).split()) if sid else "data"
+        ctx.ctr("form_id_checked")
     p, v = invariants.c01_wellformed(o.xform, expect_id)
     ctx.ctr("parsed_outputs")
     ctx.case(sig=f"{sig}|{klass}|{fmt}|{int(pretty)}")
